@@ -160,6 +160,14 @@ func run(r *ev.Run, cfg props.Cfg, prop string) {
 		}()
 	}
 	wg.Wait()
+	if prop == "C01" {
+		rng := gen.NewRand(cfg.Seed, "cmachine/reuse")
+		for i, n := 0, cfg.Pick(2000, 40000); i < n; i++ {
+			if !reusedStateObject(r, rng) {
+				break
+			}
+		}
+	}
 	if prop == "C09" {
 		// ActionMachine (channel/actionmachine.go): random walks against the documented behaviour
 		nAct := cfg.Pick(20000, 400000)
